@@ -18,10 +18,19 @@ def paren (t : Text) : Text := '(' :: (t ++ [')'])
 def isBinary : AST → Bool | .binary .. => true | _ => false
 def isTernary : AST → Bool | .ternary .. => true | _ => false
 
-/-- `ExprAST::get_precidence`: binding powers of a Binary node's operator. -/
-def astBp (regs : Regs) : AST → Option (Int × Int)
-  | .binary op _ _ => some (regs.bp op)
+def binRoot : AST → Option Name
+  | .binary o _ _ => some o
   | _ => none
+
+/-- the infix operator a node is written around: a Binary node's operator, and `OP` for `not` over a
+Binary node (written `x not OP y`) -/
+def astRoot : AST → Option Name
+  | .binary op _ _ => some op
+  | .unary op rhs => if op = notName then binRoot rhs else none
+  | _ => none
+
+/-- `ExprAST::get_precidence`: the binding powers of that operator -/
+def astBp (regs : Regs) (t : AST) : Option (Int × Int) := (astRoot t).map regs.bp
 
 /-- Does the left operand `lhs` of infix `op` need parentheses? -/
 def needParenLeft (regs : Regs) (op : Name) (lhs : AST) : Bool :=
@@ -32,10 +41,14 @@ def needParenRight (regs : Regs) (op : Name) (rhs : AST) : Bool :=
   match astBp regs rhs with
   | some (rl, _) => decide (rl ≤ (regs.bp op).2)
   | none => isTernary rhs
-def needParenUnary : AST → Bool
-  | .binary .. => true | .ternary .. => true | _ => false
+/-- the operand of a prefix operator: parenthesised iff it is an infix expression (a `not`-form
+included) or a conditional -/
+def needParenUnary (regs : Regs) (rhs : AST) : Bool :=
+  match astBp regs rhs with
+  | some _ => true
+  | none => isTernary rhs
 def needParenPostfix : AST → Bool
-  | .unary .. => true | .binary .. => true | .postfix .. => true | .ternary .. => true | _ => false
+  | .unary .. => true | .binary .. => true | .ternary .. => true | _ => false
 
 def wrapIf (b : Bool) (t : Text) : Text := if b then paren t else t
 
@@ -44,7 +57,9 @@ def expr (regs : Regs) : AST → Text
   | .lit l => litText l
   | .ref n => n
   | .call n args => n ++ ('(' :: (joinWith [','] (exprList regs args) ++ [')']))
-  | .unary op rhs => op ++ (' ' :: wrapIf (needParenUnary rhs) (expr regs rhs))
+  | .unary op rhs =>
+    if op = notName ∧ isBinary rhs then exprNot regs rhs
+    else op ++ (' ' :: wrapIf (needParenUnary regs rhs) (expr regs rhs))
   | .binary op lhs rhs =>
     wrapIf (needParenLeft regs op lhs) (expr regs lhs) ++ (' ' :: (op ++ (' ' ::
       wrapIf (needParenRight regs op rhs) (expr regs rhs))))
@@ -55,6 +70,12 @@ def expr (regs : Regs) : AST → Text
   | .map kvs => '{' :: (joinWith [','] (exprMap regs kvs) ++ ['}'])
   | .stmt xs => joinWith [';'] (exprList regs xs)
   | .none => []
+/-- `x not OP y` for the operand `x OP y` of a prefix `not` -/
+def exprNot (regs : Regs) : AST → Text
+  | .binary op lhs rhs =>
+    wrapIf (needParenLeft regs op lhs) (expr regs lhs) ++ ([' ', 'n', 'o', 't', ' '] ++ (op ++ (' ' ::
+      wrapIf (needParenRight regs op rhs) (expr regs rhs))))
+  | _ => []
 def exprList (regs : Regs) : List AST → List Text
   | [] => []
   | a :: as => expr regs a :: exprList regs as
